@@ -219,6 +219,8 @@ where
         let w = w + 1;
 
         for v in self.digraph.out_neighbors(u) {
+            assert!(v < self.visited.len(), "v = {v} isn't in the digraph");
+
             if !unsafe { *visited_ptr.add(v) } {
                 self.stack.push((v, w));
             }
